@@ -1,0 +1,47 @@
+// This Source Code Form is subject to the terms of the Mozilla Public
+// License, v. 2.0. If a copy of the MPL was not distributed with this
+// file, You can obtain one at https://mozilla.org/MPL/2.0/.
+
+//! Verification hooks, compiled only with the `verif-hooks` feature.
+//!
+//! `point(label)` is called immediately before each atomic operation of
+//! the allocator; `event(name, value)` at the protocol steps of the
+//! parent task. A test harness can install callbacks to log these or to
+//! block the calling thread until a schedule says it is its turn.
+//! Without an installed callback both are no-ops.
+#![allow(missing_docs)]
+
+use std::sync::atomic::{AtomicUsize, Ordering};
+
+static POINT_HOOK: AtomicUsize = AtomicUsize::new(0);
+static EVENT_HOOK: AtomicUsize = AtomicUsize::new(0);
+
+pub type PointHook = fn(&'static str);
+pub type EventHook = fn(&'static str, i64);
+
+pub fn set_point_hook(hook: Option<PointHook>) {
+    POINT_HOOK.store(hook.map(|f| f as usize).unwrap_or(0), Ordering::SeqCst);
+}
+
+pub fn set_event_hook(hook: Option<EventHook>) {
+    EVENT_HOOK.store(hook.map(|f| f as usize).unwrap_or(0), Ordering::SeqCst);
+}
+
+#[inline]
+pub(crate) fn point(label: &'static str) {
+    let raw = POINT_HOOK.load(Ordering::SeqCst);
+    if raw != 0 {
+        let hook: PointHook = unsafe { std::mem::transmute(raw) };
+        hook(label);
+    }
+}
+
+#[allow(dead_code)]
+#[inline]
+pub(crate) fn event(name: &'static str, value: i64) {
+    let raw = EVENT_HOOK.load(Ordering::SeqCst);
+    if raw != 0 {
+        let hook: EventHook = unsafe { std::mem::transmute(raw) };
+        hook(name, value);
+    }
+}
